@@ -420,7 +420,7 @@ fn op_alphabet(full: bool) -> Vec<SOp> {
 }
 
 fn sop_strategy() -> impl Strategy<Value = SOp> {
-    let who = || prop_oneof![3 => Just(Who::Src), 3 => Just(Who::Dst), 2 => Just(Who::Root), 2 => (0u16..8).prop_map(Who::Abs)];
+    let who = || prop_oneof![3 => Just(Who::Src), 3 => Just(Who::Dst), 2 => Just(Who::Root), 2 => (0 as Key..8).prop_map(Who::Abs)];
     prop_oneof![
         4 => (who(), who(), 50u32..54).prop_map(|(a, b, e)| SOp::Connect(a, b, e)),
         2 => (who(), who(), 50u32..54).prop_map(|(a, b, e)| SOp::TryConnect(a, b, e)),
